@@ -242,9 +242,8 @@ def lowerBound (v : Var) : Except Err Int :=
   | none => .error .unmodelled
   | some st => (getStartIndex st.startIndex).map (·.1)
 
-/-- Everything the table level needs, or the exception raised while collecting it.
-The order of the steps follows the property accesses of the real code. -/
-def topoIn (ds : DS) (numbering : Option (List Pair)) (q : Quirks := {}) : Except Err TopoIn := do
+/-- everything but the face-edge and face-face slots -/
+def topoBase (ds : DS) (numbering : Option (List Pair)) (q : Quirks := {}) : Except Err TopoIn := do
   let w ← ds.maxNodeCount
   let nf ← ds.faceCount
   let edgeDimSize : Option Nat := match ds.edgeDim with
@@ -254,27 +253,50 @@ def topoIn (ds : DS) (numbering : Option (List Pair)) (q : Quirks := {}) : Excep
     match ds.validEdgeVar? q key, ds.edgeDim with
     | some v, .ok ed => some (ds.decode q v ed)
     | _, _ => none
-  let base : TopoIn :=
-    { faceNode := ds.faceNodeArray q, fillValueErr := ds.fillValueErr q, nfaces := nf, width := w, hasEdgeDim := ds.hasEdgeDim, edgeDimSize := edgeDimSize,
-      edgeNode := edgeTable "edge_node_connectivity", faceEdge := none,
-      edgeFace := edgeTable "edge_face_connectivity", faceFace := none, numbering := numbering }
-  -- face_edge: dimensions, then the `_FillValue`-inside-the-index-range test
+  pure { faceNode := ds.faceNodeArray q, fillValueErr := ds.fillValueErr q, nfaces := nf, width := w,
+         hasEdgeDim := ds.hasEdgeDim, edgeDimSize := edgeDimSize,
+         edgeNode := edgeTable "edge_node_connectivity", faceEdge := none,
+         edgeFace := edgeTable "edge_face_connectivity", faceFace := none, numbering := numbering }
+
+/-- `has_valid_face_edge_connectivity`: the dimensions, then — if the variable carries an
+encoded `_FillValue` — that the fill value lies outside `[start_index, edge_count + start_index]`
+(reading `start_index` or counting the edges may raise) -/
+def faceEdgeValid (ds : DS) (base : TopoIn) : Except Err Bool :=
+  match ds.validFaceVar? "face_edge_connectivity" with
+  | none => .ok false
+  | some v =>
+    match v.encFill with
+    | none => .ok true
+    | some fill =>
+      match lowerBound v, base.edgeCount with
+      | .error e, _ => .error e
+      | _, .error e => .error e
+      | .ok lo, .ok n => .ok (!(decide (lo ≤ fill) && decide (fill ≤ (n : Int) + lo)))
+
+/-- Everything the table level needs, or the exception raised while collecting it.
+The order of the steps follows the property accesses of the real code. -/
+def topoIn (ds : DS) (numbering : Option (List Pair)) (q : Quirks := {}) : Except Err TopoIn := do
+  let base ← ds.topoBase numbering q
   let fe : Option (Except Err Table) :=
-    match ds.validFaceVar? "face_edge_connectivity", ds.faceDim with
-    | some v, .ok fd =>
-      match v.encFill with
-      | none => some (ds.decode q v fd)
-      | some fill =>
-        match lowerBound v, base.edgeCount with
-        | .error e, _ => some (.error e)
-        | _, .error e => some (.error e)
-        | .ok lo, .ok n => if lo ≤ fill ∧ fill ≤ (n : Int) + lo then none else some (ds.decode q v fd)
-    | _, _ => none
+    match ds.faceEdgeValid base, ds.validFaceVar? "face_edge_connectivity", ds.faceDim with
+    | .error e, _, _ => some (.error e)
+    | .ok true, some v, .ok fd => some (ds.decode q v fd)
+    | _, _, _ => none
   let ff : Option (Except Err Table) :=
     match ds.validFaceVar? "face_face_connectivity", ds.faceDim with
     | some v, .ok fd => some (ds.decode q v fd)
     | _, _ => none
   pure { base with faceEdge := fe, faceFace := ff }
+
+/-- the five `has_valid_*_connectivity` flags: face_node, edge_node, face_edge, edge_face, face_face -/
+def hasValid (ds : DS) (numbering : Option (List Pair)) (q : Quirks := {}) : List (Except Err Bool) :=
+  [ .ok (ds.validFaceVar? "face_node_connectivity").isSome,
+    .ok (ds.validEdgeVar? q "edge_node_connectivity").isSome,
+    (match ds.topoBase numbering q with
+      | .error e => .error e
+      | .ok base => ds.faceEdgeValid base),
+    .ok (ds.validEdgeVar? q "edge_face_connectivity").isSome,
+    .ok (ds.validFaceVar? "face_face_connectivity").isSome ]
 
 /-- `UGrid._make_polygons`: the vertex ring of every face -/
 def polygonRings (ds : DS) (q : Quirks := {}) : Except Err (List (List (Rat × Rat))) :=
@@ -291,5 +313,37 @@ def storedFaceCentres (ds : DS) (q : Quirks := {}) : Option (List (Rat × Rat)) 
   (ds.faceCoords q).map fun (vx, vy) => vx.vals.zip vy.vals
 
 end DS
+
+/-! ## two tiny datasets used as witnesses in `Props/C10.lean` -/
+
+private def conn (dims : String × String) (shape : Nat × Nat) (rows : List (List Int)) : Option Stored :=
+  some { dims := dims, shape := shape, payload := .int rows none, startIndex := .absent }
+
+/-- one triangle; node and face coordinates held as xarray coordinates -/
+def witnessCoords : DS :=
+  { attrs := [("node_coordinates", "nx ny"), ("face_node_connectivity", "fn"), ("face_coordinates", "fx fy")],
+    sizes := [("nnode", 3), ("nface", 1), ("nmax", 3)],
+    vars := [
+      { name := "nx", isCoord := true, dims := ["nnode"], conn := none, encFill := none, vals := [0, 2, 0] },
+      { name := "ny", isCoord := true, dims := ["nnode"], conn := none, encFill := none, vals := [0, 0, 2] },
+      { name := "fx", isCoord := true, dims := ["nface"], conn := none, encFill := none, vals := [1] },
+      { name := "fy", isCoord := true, dims := ["nface"], conn := none, encFill := none, vals := [1] },
+      { name := "fn", isCoord := false, dims := ["nface", "nmax"], conn := conn ("nface", "nmax") (1, 3) [[0, 1, 2]],
+        encFill := none, vals := [] }] }
+
+/-- two quadrilaterals, the edge-node table supplied with second dimension `nv` (not `Two`);
+the face dimension has size two and comes first -/
+def witnessTwoDim : DS :=
+  { attrs := [("node_coordinates", "nx ny"), ("face_node_connectivity", "fn"),
+              ("edge_node_connectivity", "en"), ("edge_dimension", "nedge")],
+    sizes := [("nnode", 6), ("nface", 2), ("nmax", 4), ("nedge", 7), ("nv", 2)],
+    vars := [
+      { name := "nx", isCoord := false, dims := ["nnode"], conn := none, encFill := none, vals := [0, 2, 2, 0, 4, 4] },
+      { name := "ny", isCoord := false, dims := ["nnode"], conn := none, encFill := none, vals := [0, 0, 2, 2, 0, 2] },
+      { name := "fn", isCoord := false, dims := ["nface", "nmax"],
+        conn := conn ("nface", "nmax") (2, 4) [[0, 1, 2, 3], [5, 2, 1, 4]], encFill := none, vals := [] },
+      { name := "en", isCoord := false, dims := ["nedge", "nv"],
+        conn := conn ("nedge", "nv") (7, 2) [[2, 3], [0, 3], [0, 1], [1, 2], [1, 4], [4, 5], [2, 5]],
+        encFill := none, vals := [] }] }
 
 end Ems.Mesh
